@@ -41,7 +41,7 @@ type Case struct {
 	ReadLimit      int         `json:"read_limit,omitempty"`
 	CtlLen         int         `json:"ctl_len,omitempty"`
 	CtlOp          int         `json:"ctl_op,omitempty"`
-	CtlAPI         string      `json:"ctl_api,omitempty"` // "" = WriteMessage, "close" = WriteClose(code, reason), "frame" = WriteFrame
+	CtlAPI         string      `json:"ctl_api,omitempty"`     // "" = WriteMessage, "close" = WriteClose(code, reason), "frame" = WriteFrame
 	CtlLenEnc      int         `json:"ctl_len_enc,omitempty"` // recv-control: 0 minimal, 1 force the 16-bit form, 2 force the 64-bit form
 	// Handlers (declared mode): which receive handlers the application installed: "" = OnMessage,
 	// "dataframe" = OnDataFrame only, "both"
